@@ -32,26 +32,26 @@ example : perform (ofTable ConnSM) noHandlers 8 (initOf ConnSM) "select" = .fail
   · exact ((rejected_noop _ _ 7 _ "select").2 [2] 3 (by decide +kernel) (by decide +kernel))
   · exact ((rejected_noop _ _ 7 _ "nonsense").1 (by decide +kernel))
 
-/-- **Allowed request moves to exactly its destination** (any forest; handlers requesting nothing): the request completed
-iff it was allowed (fuel aside), and then `current` is the transition's destination. -/
-theorem moves_to_destination (m : MDef) (f : Nat) (st st' : St) (name : String)
-    (h : perform m noHandlers f st name = .ok st') :
+/-- **Allowed request moves to exactly its destination** (any forest; any handlers that request nothing — `Quiet`: timers,
+sends, event forwarding): the request completed iff it was allowed (fuel aside), and then `current` is the transition's destination. -/
+theorem moves_to_destination (m : MDef) (hh : Handlers) (hq : Quiet hh) (f : Nat) (st st' : St) (name : String)
+    (h : perform m hh f st name = .ok st') :
     ∃ srcs dst, lookup m name = some (srcs, dst) ∧ srcs.contains st.cur = true ∧ st'.cur = dst := by
-  obtain ⟨srcs, dst, _, _, hl, hc, _, _, hcur, _⟩ := perform_noH h
+  obtain ⟨srcs, dst, _, _, hl, hc, _, _, hcur, _⟩ := perform_noH hq h
   exact ⟨srcs, dst, hl, hc, hcur⟩
 
 example : (perform (ofTable ConnSM) noHandlers 8 (initOf ConnSM) "connect").st.cur = 2 := by decide +kernel
 
 /-! ## afterwards the active states are exactly the current state and its ancestors -/
 
-/-- **(a) every forest, no handler requests.**  `WF`: a parent is created before its children (the `State` constructor
+/-- **(a) every forest, handlers that request nothing (`Quiet`; `noHandlers` is one: `quiet_noHandlers`).**  `WF`: a parent is created before its children (the `State` constructor
 takes the parent object).  Whether the request is performed or rejected, `active = ancestors-or-self of current` is kept. -/
-theorem active_is_ancestors_forest (m : MDef) (wf : WF m) (f : Nat) (st : St) (name : String) (hinv : Inv m st)
-    (hnf : (perform m noHandlers f st name).err ≠ some .fuel) : Inv m (perform m noHandlers f st name).st := by
-  cases h : perform m noHandlers f st name with
-  | ok st' => exact inv_noH wf hinv h
+theorem active_is_ancestors_forest (m : MDef) (wf : WF m) (hh : Handlers) (hq : Quiet hh) (f : Nat) (st : St) (name : String)
+    (hinv : Inv m st) (hnf : (perform m hh f st name).err ≠ some .fuel) : Inv m (perform m hh f st name).st := by
+  cases h : perform m hh f st name with
+  | ok st' => exact inv_noH wf hq hinv h
   | fail e st' =>
-    rcases perform_noH_fail h with he | ⟨_, hs⟩
+    rcases perform_noH_fail hq h with he | ⟨_, hs⟩
     · rw [h] at hnf; exact absurd (by simp [Out.err, he]) hnf
     · simp only [Out.st]; rw [hs]; exact hinv
 
@@ -128,15 +128,15 @@ theorem shipped_wellformed :
 * if source and destination have the same depth, `xs` and `ys` are exactly the exited and the entered states,
 * in general (the engine compares parents in lock step, it does not compute a least common ancestor) anything in `xs` beyond
   the exited states is a common ancestor of source and destination and is in `ys` as well: it is left and entered again. -/
-theorem events_exactly_once (m : MDef) (wf : WF m) (f : Nat) (st st' : St) (name : String)
-    (h : perform m noHandlers f st name = .ok st') :
+theorem events_exactly_once (m : MDef) (wf : WF m) (hh : Handlers) (hq : Quiet hh) (f : Nat) (st st' : St) (name : String)
+    (h : perform m hh f st name = .ok st') :
     ∃ (srcs : List Nat) (dst : Nat) (xs ys : List Nat), lookup m name = some (srcs, dst) ∧
       st'.log = st.log ++ xs.map .leave ++ ys.map .enter ++ [.called name] ∧
       xs.Nodup ∧ ys.Nodup ∧
       (∀ x, x ∈ exited m st.cur dst → x ∈ xs) ∧ (∀ x, x ∈ entered m st.cur dst → x ∈ ys) ∧
       (depth m st.cur = depth m dst → (∀ x, x ∈ xs ↔ x ∈ exited m st.cur dst) ∧ (∀ x, x ∈ ys ↔ x ∈ entered m st.cur dst)) ∧
       (∀ x, x ∈ xs → x ∉ exited m st.cur dst → x ∈ chain m st.cur ∧ x ∈ chain m dst ∧ x ∈ ys) := by
-  obtain ⟨srcs, dst, xs, ys, hl, _, hw1, hw2, _, _, hlog⟩ := perform_noH h
+  obtain ⟨srcs, dst, xs, ys, hl, _, hw1, hw2, _, _, hlog⟩ := perform_noH hq h
   refine ⟨srcs, dst, xs, ys, hl, hlog, walk_nodup wf _ _ _ hw1, walk_nodup wf _ _ _ hw2,
     (walk_covers wf hw1 hw2).1, (walk_covers wf hw1 hw2).2, fun hd => walk_exact wf hd hw1 hw2, walk_extra wf hw1 hw2⟩
 
